@@ -51,6 +51,10 @@ type Fact struct {
 	MP  map[string]*Sub   `json:"mp"` // map of struct pointers: F.MP["k1"].Y
 	M   map[string]int64  `json:"m"`
 	MS  map[string]string `json:"ms"`
+	MI  map[int64]int64   `json:"mi"` // map with integer keys: F.MI[1]
+	// AI is a slice of interface values in a Go fact, layout [int64, string, float64]: an element keeps
+	// the kind of whatever is stored into it; the engine reads it only inside arithmetic and comparisons.
+	AI []interface{} `json:"ai"`
 
 	name  string
 	hooks *Hooks
@@ -168,6 +172,12 @@ func NewState(f *Facts) State {
 
 func normFact(f *Fact) {
 	f.T = f.T.UTC()
+	// the JSON copy turns the int64 of the interface slice into a float64: restore the layout
+	if len(f.AI) > 0 {
+		if x, ok := f.AI[0].(float64); ok {
+			f.AI[0] = int64(x)
+		}
+	}
 }
 
 // Canon renders a state canonically (sorted maps, explicit Go kinds) for comparison and hashing.
